@@ -40,7 +40,19 @@ FDC = 'pexpect.fdpexpect.fdspawn'
 
 POP = 'pexpect.popen_spawn.PopenSpawn.'
 
+RP_CONTRACTS = ['pexpect.utils.select_ignore_interrupts', 'pexpect.utils.poll_ignore_interrupts',
+                (SB + 'read_nonblocking', FDC), 'pexpect.fdpexpect.fdspawn.read_nonblocking',
+                'pexpect.pty_spawn.spawn.read_nonblocking']
+
 PROPS = {
+    'C06': {
+        'contracts': RP_CONTRACTS,
+        'assumptions': [
+            'environment (rely) model of the kernel side of a pty / pipe / descriptor (DESIGN.md 5.5): between any two system calls the peer may write and may hang up or exit; a readiness poll is true iff unread bytes exist or the peer is gone; os.read takes a non-empty prefix of the unread bytes or reports EOF iff none are left and the peer is gone; isalive() is False iff the peer has exited',
+            'PopenSpawn (reader thread + queue) and SocketSpawn read paths are not yet under contract in this check',
+            'thread scheduling inside queue.Queue and the kernel really behaving like the model are outside the contracts',
+        ],
+    },
     'C04': {
         'contracts': [E + 'eof', E + 'timeout', E + 'errored', E + 'existing_data', E + 'expect_loop', SS + '__init__', SR + '__init__',
                       SB + 'expect_list', SB + 'expect_loop'],
@@ -51,7 +63,9 @@ PROPS = {
         ],
     },
     'C05': {
-        'contracts': [E + 'expect_loop', SB + 'expect_list', SB + 'expect_loop'],
+        'contracts': [E + 'expect_loop', SB + 'expect_list', SB + 'expect_loop', 'pexpect.utils.select_ignore_interrupts',
+                      'pexpect.utils.poll_ignore_interrupts', 'pexpect.fdpexpect.fdspawn.read_nonblocking',
+                      'pexpect.pty_spawn.spawn.read_nonblocking'],
         'assumptions': [
             'ghost clock (DESIGN.md 5.4): time.time() reads it, time.sleep(d) advances it by d, read_nonblocking(size, t) advances it by at most max(t, 0) and raises TIMEOUT only after t has elapsed; pure computation costs nothing',
             'the deadline bound is proved on the ghost clock relative to the read_nonblocking interface contract; that each transport meets that interface (select/poll wrappers, waitnoecho, PopenSpawn polling) is not yet under contract in this check',
